@@ -47,6 +47,8 @@ def escape_rules(ctx, rule):
     qspecial = {ch for (st, ch, lc), outs in tt.items() if st == "QuotedString" and ch < 128 and not all(o[0] == "append" for o in outs)}
     unesc_q = sorted(ch for ch in qspecial if wt[(ch, True)][0] == "literal")
     ctx.check(not unesc_q, rule, "specials-escaped:quoted", "quoted: double quote and backslash are never written literally", "special characters written literally (quoted): %s" % unesc_q, wfn.loc())
+    lost_esc = sorted({st for (st, ch, lc), outs in tt.items() if any(o[0] == "escape-lost" for o in outs)})
+    ctx.check(not lost_esc, rule, "escape-appended", "the octet an escape stands for is appended to the token (text and octets)", "the escaped octet is not appended in state(s) %s" % lost_esc, tfn.loc())
     for st in ("Initial", "UnquotedString", "QuotedString"):
         ok = all(any(o[0] == "escape" for o in tt[(st, 92, lc)]) for lc in (False, True))
         ctx.check(ok, rule, "backslash-honoured:" + st, "a backslash starts an escape in state %s" % st, "backslash is not an escape in state %s" % st, tfn.loc())
@@ -331,6 +333,27 @@ def run(ctx):
     outs = [A.peel(e) for b, e in rets]
     ctx.check(all(o[0] == "call" and o[1] == ZS + "serialise_octets" and A.peel(o[2][1])[2] is False for o in outs) and bool(outs), "C13.5", "serialise_domain:escaped",
               "names are rendered through serialise_octets(.., unquoted)", "names bypass the escaping", sd.loc())
+    # the names written are the names of the ordinary records and of the wildcard records: both key sets flow into the list
+    colls_ = [zsr.call_expr(t, b) for b, t in A.call_blocks(zs, A.name_endswith("Iterator::collect"))]
+    def key_sources(e):
+        out = set()
+        for x in A.walk(e):
+            if x[0] == "call" and x[1].endswith("HashMap::<K, V, S, A>::keys") and x[2]:
+                src = A.peel(x[2][0])
+                for y in A.walk(src):
+                    if y[0] == "call" and y[1] in (Z + "Zone::all_records", Z + "Zone::all_wildcard_records"):
+                        out.add(y[1].rsplit("::", 1)[-1])
+        return out
+    ksrc = set()
+    for ce in colls_:
+        ksrc |= key_sources(ce)
+    csets = {A.show(A.strip_refs(x)) for ce in colls_ for x in A.walk(ce) if x[0] == "call" and x[1].endswith("HashSet::<T>::new")}
+    for b, t in A.call_blocks(zs, A.name_endswith("HashSet::<T, S, A>::insert")):
+        e = zsr.call_expr(t, b)
+        if A.show(A.strip_refs(e[2][0])) in csets:
+            ksrc |= key_sources(e[2][1])
+    ctx.check(ksrc == {"all_records", "all_wildcard_records"}, "C13.4", "Zone::serialise:names", "every name holding ordinary or wildcard records is written",
+              "the names written come from %s only" % sorted(ksrc), zs.loc())
     # the writer leaves none of its loops early: every name and every record is visited
     ee = A.early_loop_exits(zs, zsc)
     ctx.check(not ee, "C13.4", "Zone::serialise:no-early-exit", "the record loops end only when their iterator is exhausted",
